@@ -5,6 +5,7 @@ package corerad
 import (
 	"encoding/json"
 	"fmt"
+	"net"
 	"net/netip"
 	"os"
 	"strconv"
@@ -31,17 +32,22 @@ import (
 var c06Gaps = []time.Duration{0, 100 * time.Millisecond, time.Second, 2900 * time.Millisecond, 3*time.Second - 1, 3 * time.Second, 3100 * time.Millisecond, 6 * time.Second}
 
 type c06Event struct {
-	Multicast bool          `json:"multicast_trigger"`
-	Reinit    bool          `json:"link_change_reinit,omitempty"`
-	WriteErr  bool          `json:"next_multicast_write_fails,omitempty"`
-	Gap       time.Duration `json:"gap"`
+	Multicast bool `json:"multicast_trigger"`
+	Reinit    bool `json:"link_change_reinit,omitempty"`
+	WriteErr  bool `json:"next_multicast_write_fails,omitempty"`
+	FwdFlip   bool `json:"forwarding_flips,omitempty"`
+	// UFail: a unicast solicitation arrives whose answer cannot be delivered: the next
+	// unicast transmission fails with this errno.
+	UFail string        `json:"unicast_answer_fails_with,omitempty"`
+	Gap   time.Duration `json:"gap"`
 }
 
 type c06Case struct {
-	Interval time.Duration `json:"interval,omitempty"` // min=max interval (default 4s)
-	Events   []c06Event    `json:"events"`
-	Choices  []int         `json:"choices,omitempty"`
-	Tail     time.Duration `json:"tail,omitempty"` // quiet time before the stop (default 8s)
+	Interval    time.Duration `json:"interval,omitempty"` // min=max interval (default 4s)
+	UnicastOnly bool          `json:"unicast_only,omitempty"`
+	Events      []c06Event    `json:"events"`
+	Choices     []int         `json:"choices,omitempty"`
+	Tail        time.Duration `json:"tail,omitempty"` // quiet time before the stop (default 8s)
 	// plugins, when set, returns the option plugins of the interface (called inside
 	// the bubble, so that epochs are on the virtual clock). Not part of a replay file:
 	// the test that sets it sets it again when replaying.
@@ -49,6 +55,10 @@ type c06Case struct {
 }
 
 const c06Interval = 4 * time.Second
+
+var c06Errnos = map[string]syscall.Errno{"EHOSTUNREACH": syscall.EHOSTUNREACH, "ENETUNREACH": syscall.ENETUNREACH,
+	"EADDRNOTAVAIL": syscall.EADDRNOTAVAIL, "EINVAL": syscall.EINVAL, "ENOBUFS": syscall.ENOBUFS}
+var c06ErrnoNames = []string{"EHOSTUNREACH", "ENETUNREACH", "EADDRNOTAVAIL", "EINVAL", "ENOBUFS"}
 
 func c06Scenario(c c06Case, keep **advWorld) *vsched.Scenario {
 	return &vsched.Scenario{
@@ -60,14 +70,22 @@ func c06Scenario(c c06Case, keep **advWorld) *vsched.Scenario {
 				iv = c.Interval
 			}
 			cfg := staticCfg("eth0", iv, iv)
+			cfg.UnicastOnly = c.UnicastOnly
 			if c.plugins != nil {
 				cfg.Plugins = c.plugins()
 			}
 			a := newAdvWorld(cfg, true, true)
 			failNext := false
+			failU := ""
 			nwrites := map[int]int{}
 			a.writeFault = func(fc *fconn, dst netip.Addr) error {
 				nwrites[fc.id]++
+				if failU != "" && !dst.IsMulticast() {
+					en := c06Errnos[failU]
+					failU = ""
+					vsched.Obs("write-fault", "unicast %s", en)
+					return &net.OpError{Op: "write", Net: "ip6:ipv6-icmp", Err: os.NewSyscallError("sendmsg", en)}
+				}
 				// Only a scheduled multicast RA fails: how a failing *initial* RA of a
 				// connection is classified is not fixed by the statements.
 				if failNext && dst.IsMulticast() && nwrites[fc.id] > 1 {
@@ -82,6 +100,7 @@ func c06Scenario(c c06Case, keep **advWorld) *vsched.Scenario {
 			x.Spawn("driver", func() {
 				defer a.done()
 				var at time.Duration
+				fwd := true
 				for i, e := range c.Events {
 					if i == 0 {
 						if e.Gap > time.Millisecond {
@@ -97,6 +116,12 @@ func c06Scenario(c c06Case, keep **advWorld) *vsched.Scenario {
 					}
 					at += e.Gap
 					switch {
+					case e.UFail != "":
+						failU = e.UFail
+						a.inject(rsFrom("fe80::5", true))
+					case e.FwdFlip:
+						fwd = !fwd
+						a.st.setFwd("eth0", fwd)
 					case e.WriteErr:
 						failNext = true // the next scheduled multicast transmission fails transiently
 					case e.Reinit:
@@ -192,14 +217,14 @@ func c06Check(c c06Case, x *vsched.Exec, a *advWorld) (out [][2]string) {
 		if c.Interval != 0 {
 			iv = c.Interval
 		}
-		for t := g.open; t+3*time.Second < g.end; t += iv {
+		for t := g.open; t+3*time.Second < g.end && !c.UnicastOnly; t += iv {
 			trigs = append(trigs, trig{t, "periodic"})
 		}
 	}
 	var at time.Duration
 	for _, e := range c.Events {
 		at += e.Gap
-		if e.Multicast && !e.Reinit && !e.WriteErr {
+		if e.Multicast && !e.Reinit && !e.WriteErr && !e.FwdFlip && e.UFail == "" && !c.UnicastOnly {
 			trigs = append(trigs, trig{at, "solicitation-from-::"})
 		}
 	}
@@ -228,7 +253,7 @@ func c06Check(c c06Case, x *vsched.Exec, a *advWorld) (out [][2]string) {
 	// Unicast solicitations are answered (C07 has the precise bound).
 	nu := 0
 	for _, e := range c.Events {
-		if !e.Multicast && !e.Reinit && !e.WriteErr {
+		if !e.Multicast && !e.Reinit && !e.WriteErr && !e.FwdFlip && e.UFail == "" {
 			nu++
 		}
 	}
@@ -263,7 +288,16 @@ func (c c06Case) String() string {
 		if e.WriteErr {
 			k = "W"
 		}
+		if e.FwdFlip {
+			k = "F"
+		}
+		if e.UFail != "" {
+			k = "U!" + e.UFail
+		}
 		s = append(s, fmt.Sprintf("%s+%s", k, e.Gap))
+	}
+	if c.UnicastOnly {
+		s = append([]string{"unicast-only"}, s...)
 	}
 	if c.Interval != 0 {
 		return "iv=" + c.Interval.String() + " " + strings.Join(s, " ")
@@ -274,7 +308,7 @@ func (c c06Case) String() string {
 func TestVerifC06(t *testing.T) {
 	r := ev.Begin("C06", "histories")
 	defer r.End(t)
-	r.Rule = "histories = all sequences of <=K events, event = (solicitation from :: | unicast solicitation) x gap to the previous event in {0, 100ms, 1s, 2.9s, 3s-1ns, 3s, 3.1s, 6s}, or a link-state change (tear-down and re-initialisation) or a transient failure (ENOBUFS) of the next scheduled multicast transmission, each x gap {100ms, 1s, 3.1s, 6s}, injected into the real Advertiser with min=max=4s (periodic ticks at 0,4,8,... interleave) and min=max=60s (long quiet periods; quick: histories <=2), plus bursts of 4, 5, 6 and 9 solicitations (unicast / from :: / alternating; 0, 0.1, 1 s apart; at start and after a solicited multicast RA), under the virtual clock in the canonical schedule; oracle on virtual WriteTo timestamps to ff02::1, per connection generation from its initial RA: consecutive >= 3s apart, every trigger (tick or :: solicitation) served within 3s, unicast answers conserved; states = histories executed, transitions = scheduler steps; non-trivial = history has >=1 event; distinct = distinct history"
+	r.Rule = "histories = all sequences of <=K events, event = (solicitation from :: | unicast solicitation) x gap to the previous event in {0, 100ms, 1s, 2.9s, 3s-1ns, 3s, 3.1s, 6s}, or a link-state change (tear-down and re-initialisation) or a transient failure (ENOBUFS) of the next scheduled multicast transmission, each x gap {100ms, 1s, 3.1s, 6s}, injected into the real Advertiser with min=max=4s (periodic ticks at 0,4,8,... interleave) and min=max=60s (long quiet periods; quick: histories <=2), plus all sequences of <=3 (thorough 4) events over {solicitation from ::, unicast solicitation} x gap {0.1, 1, 3.1 s} and {unicast solicitation whose answer fails with EHOSTUNREACH, ENETUNREACH, EADDRNOTAVAIL, EINVAL, ENOBUFS} in normal and unicast-only mode, plus bursts of 4, 5, 6 and 9 solicitations (unicast / from :: / alternating; 0, 0.1, 1 s apart; at start and after a solicited multicast RA), under the virtual clock in the canonical schedule; oracle on virtual WriteTo timestamps to ff02::1, per connection generation from its initial RA: consecutive >= 3s apart, every trigger (tick or :: solicitation) served within 3s, unicast answers conserved; states = histories executed, transitions = scheduler steps; non-trivial = history has >=1 event; distinct = distinct history"
 	r.Assumptions = []string{"canonical schedule per history (goroutine interleavings are C07/C08's subject)", "random delay draws at their default (0) answer"}
 	if r.Replay != nil {
 		var c c06Case
@@ -356,6 +390,42 @@ func TestVerifC06(t *testing.T) {
 		return true
 	})
 	r.Max("max_depth", int64(K))
+
+	// Second alphabet: undeliverable unicast answers (5 errnos) among solicitations, in
+	// the normal and in the unicast-only mode (where no multicast RA is ever due).
+	{
+		g2 := []time.Duration{100 * time.Millisecond, time.Second, 3100 * time.Millisecond}
+		n2 := 2*len(g2) + len(c06ErrnoNames)
+		K2 := 3
+		if r.Thorough() {
+			K2 = 4
+		}
+		enum.Sequences(n2, K2, func(seq []int) bool {
+			idx++
+			if !r.Mine(idx) || len(seq) == 0 {
+				return true
+			}
+			for _, uo := range []bool{false, true} {
+				c := c06Case{UnicastOnly: uo}
+				for _, s := range seq {
+					if s >= 2*len(g2) {
+						c.Events = append(c.Events, c06Event{UFail: c06ErrnoNames[s-2*len(g2)], Gap: 100 * time.Millisecond})
+					} else {
+						c.Events = append(c.Events, c06Event{Multicast: s%2 == 0, Gap: g2[s/2]})
+					}
+				}
+				x, _, vs := c06Run(t, c)
+				r.Case(c.String(), true)
+				r.Count("states", 1)
+				r.Count("transitions", int64(x.Steps))
+				r.Count("traces_validated_against_impl", 1)
+				for _, v := range vs {
+					r.Violation(v[0], "history "+c.String()+": "+v[1], c)
+				}
+			}
+			return !r.OverBudget()
+		})
+	}
 
 	// Bursts beyond K: n solicitations (all unicast / all from :: / alternating) within
 	// 0, 100 ms or 1 s of each other, right after start and 3.1 s after a solicitation
